@@ -169,6 +169,8 @@ def a64_bumps():
                      post_changes={R(A, "x6"): ("copy", R(A, "x2"))}, tag="copy"))
     out.append(RD.RI("add x6, x2, #8", {R(A, "x2")}, {R(A, "x6")},
                      post_changes={R(A, "x6"): ("copy", R(A, "x2"), 8)}, tag="copy"))
+    out.append(RD.RI("sub x6, x2, #8", {R(A, "x2")}, {R(A, "x6")},
+                     post_changes={R(A, "x6"): ("copy", R(A, "x2"), -8)}, tag="copy"))
     # a post-/pre-indexed access to another location in between also bumps the pointer
     out.append(a64_load(("x2", None, 0, 8, "post"), dst="x7"))
     out.append(a64_load(("x2", None, 0, 8, "pre"), dst="x7"))
